@@ -211,7 +211,20 @@ def trimmed(x, p):
         counts[s_] = n if s_ == sec else \
             {'absent': None, 'one row': 1, 'full': tot}[others]
     text, row_mem = trimmed_text(counts)
-    if x.choice('after_other_load', [False, True]):
+    prior = x.choice('after_other_load', [False, True, 'edited blank cart'])
+    if prior == 'edited blank cart':
+        # a cart without any data section was loaded and edited through the
+        # library earlier in the same process
+        blank, _ = trimmed_text({}, code=b'y=2\n')
+        og = P8Formatter.from_file(hx.MemStream(blank), filename='o.p8')
+        og.gfx.set_sprite(1, [[7, 7]])
+        og.map.set_cell(1, 1, 9)
+        og.map.set_cell(1, 40, 9)
+        og.gff.set_flags(2, 0xff)
+        og.music.set_channel(0, 0, 5)
+        og.sfx.set_note(0, 0, pitch=12, volume=5)
+        og.sfx.set_properties(1, note_duration=3)
+    elif prior:
         # another cart, with every section filled, was loaded earlier in the
         # same process: nothing of it may show up in this one
         full = {}
